@@ -205,10 +205,118 @@ func (c *Ctx) checkForwarderSSA(rule string, sp fwdSpec) fwdResultSSA {
 			calls = append(calls, ci)
 		}
 	})
+	if len(calls) == 0 {
+		// ... or inside a function literal of this method (see below)
+		for _, g := range fn.AnonFuncs {
+			instrsOf(g, func(in ssa.Instruction) {
+				if ci, ok := isTarget(in); ok {
+					calls = append(calls, ci)
+				}
+			})
+		}
+	}
 	if n != 1 {
 		return fail(fn.Pos(), fmt.Sprintf("expected exactly one loop that visits every index of the children list (%s) once, in order; found %d: some children are skipped, visited twice or visited out of order", wantList, n))
 	}
 	lp := fl.loop
+	// the forwarded call may be made by a function literal of this method that the loop calls with the
+	// loop element (`forEach(func(child) error { ... child.M(params) ... })` after inlining forEach): the
+	// literal must make the forwarded call exactly once on every path, on its own parameter, with the
+	// method's parameters, and return what the child answered
+	viaLiteral := map[ssa.CallInstruction]bool{}
+	if len(calls) > 0 {
+		allInLiterals := true
+		for _, ci := range calls {
+			if ci.(ssa.Instruction).Parent() == fn {
+				allInLiterals = false
+			}
+		}
+		if allInLiterals {
+			var outer []ssa.CallInstruction
+			okLit := true
+			whyLit := ""
+			for b := range lp.Blocks {
+				for _, in := range b.Instrs {
+					oc, isCall := in.(*ssa.Call)
+					if !isCall {
+						continue
+					}
+					var g *ssa.Function
+					if mc, isMC := canon(oc.Call.Value).(*ssa.MakeClosure); isMC {
+						g, _ = mc.Fn.(*ssa.Function)
+					} else if f, isF := canon(oc.Call.Value).(*ssa.Function); isF && f.Parent() == fn {
+						g = f
+					}
+					if g == nil || g.Parent() != fn {
+						continue
+					}
+					k := -1
+					for ai, a := range oc.Call.Args {
+						if fl.elemOf(a) {
+							k = ai
+						}
+					}
+					if k < 0 || k >= len(g.Params) {
+						continue
+					}
+					var inner []ssa.CallInstruction
+					for _, ci := range calls {
+						if ci.(ssa.Instruction).Parent() == g {
+							inner = append(inner, ci)
+						}
+					}
+					if len(inner) != 1 {
+						continue
+					}
+					ic := inner[0]
+					cnt := c.newPathCounter(func(i ssa.Instruction) bool { return i == ic.(ssa.Instruction) }, 0).fn(g, 0)
+					if cnt.min != 1 || cnt.max != 1 {
+						okLit, whyLit = false, "the function literal does not make the forwarded call exactly once on every path"
+					}
+					if canon(callRecv(ic)) != ssa.Value(g.Params[k]) {
+						okLit, whyLit = false, "the function literal does not call its own parameter (the loop element)"
+					}
+					args := callArgs(ic)
+					if len(args) != len(fn.Params)-1 {
+						okLit, whyLit = false, "the forwarded call does not pass exactly the method's parameters"
+					} else {
+						for i, a := range args {
+							if canon(a) != ssa.Value(fn.Params[i+1]) {
+								okLit, whyLit = false, fmt.Sprintf("argument %d of the forwarded call is not the method's parameter #%d unchanged", i+1, i+1)
+							}
+						}
+					}
+					// the literal answers with the child's answer
+					if sp.mode == fwdErrExit || sp.mode == fwdBoolAnd || sp.mode == fwdAllFirstErr {
+						for _, r := range returnsOf(g) {
+							if len(r.Results) == 0 {
+								okLit, whyLit = false, "the function literal does not return the child's answer"
+								continue
+							}
+							for _, va := range resultValues(r, len(r.Results)-1) {
+								v := canon(va.Val)
+								if ex, isEx := v.(*ssa.Extract); isEx {
+									v = ex.Tuple
+								}
+								if cv, isV := ic.(ssa.Value); !isV || v != cv {
+									okLit, whyLit = false, "the function literal does not return the child's answer unchanged"
+								}
+							}
+						}
+					}
+					outer = append(outer, oc)
+					viaLiteral[oc] = true
+				}
+			}
+			if len(outer) == 0 {
+				okLit, whyLit = false, "the forwarded call is made inside a function literal that the per-child loop does not call with the loop element"
+			}
+			if !okLit {
+				return fail(fn.Pos(), whyLit+": children receive a different call than the one made on the multi reporter / transport")
+			}
+			calls = outer
+		}
+	}
 	// the loop is reached on every path: no return before (or around) it - an early return means that
 	// for some arguments or some history no child is called at all
 	for _, r := range returnsOf(fn) {
@@ -221,6 +329,9 @@ func (c *Ctx) checkForwarderSSA(rule string, sp fwdSpec) fwdResultSSA {
 		in := ci.(ssa.Instruction)
 		if !lp.Blocks[in.Block()] {
 			return fail(in.Pos(), "a child's "+sp.target+" is called outside the per-child loop (a child is called twice, or a specific child is singled out)", c.describe(in))
+		}
+		if viaLiteral[ci] {
+			continue // checked above, inside the literal
 		}
 		if !fl.elemOf(callRecv(ci)) {
 			return fail(in.Pos(), "the forwarded call is not made on the loop's own element children[i]", c.describe(in))
